@@ -8,7 +8,7 @@ os.makedirs(d, exist_ok=True)
 shutil.copy(f"{src}/seed{idx}.diff", f"{d}/patch.diff")
 shutil.copy(f"{src}/tests/seeded_demo{idx}.rs", f"{d}/demo.rs")
 json.dump({
- "property": prop, "round": 2, "change": change, "needs_to_manifest": needs,
+ "property": prop, "round": int(os.environ.get("SEED_ROUND", "2")), "change": change, "needs_to_manifest": needs,
  "confirmed": "notes/verify_seed.sh in a scratch worktree: cargo test --workspace --offline passes with the change (exit 0); demo test fails with the change (exit 101) and passes without it (exit 0)",
  "author": "fresh sub-agent given only the property text, the list of first-round mechanisms to avoid, and a scratch worktree",
  "check_result": result}, open(f"{d}/meta.json", "w"), indent=1)
